@@ -393,6 +393,9 @@ def _circuit_scenarios():
             # maps a caller may hand over: names instead of symbols, symbols the circuit does not use, mixed key kinds
             "symbol_map_names": {"x": 0.5, CS.S("y"): 0.25, "unused": 1.0},
             "symbol_map_extra": {CS.S("unused1"): 1.5, CS.S("x"): CS.S("v0"), CS.S("unused2"): CS.S("y")},
+            # dictionary kinds that react to a lookup of a missing key (defaultdict creates it, Counter / ChainMap do not)
+            "symbol_map_default": __import__("collections").defaultdict(float, {CS.S("x"): 0.5}),
+            "symbol_map_chain": __import__("collections").ChainMap({CS.S("x"): 0.5}, {CS.S("unused"): 2.0}),
             "state": np.array([CS.S(f"a{i}") for i in range(8)], dtype=object),
         }
 
@@ -410,6 +413,7 @@ def _circuit_scenarios():
         ("circuit + operation", lambda o: o["circuit"] + o["operation"]),
         ("bind", lambda o: o["circuit"].bind(o["symbol_map"])),
         ("bind (map keyed by names and symbols)", lambda o: o["circuit"].bind(o["symbol_map_names"])),
+        ("bind (defaultdict / ChainMap map with symbols missing)", lambda o: (o["circuit"].bind(o["symbol_map_default"]), o["operation"].bind(o["symbol_map_default"]), o["other"].bind(o["symbol_map_default"]), o["circuit"].bind(o["symbol_map_chain"]))),
         ("bind (map with symbols the circuit does not use)", lambda o: (o["circuit"].bind(o["symbol_map_extra"]), o["other"].bind(o["symbol_map_extra"]), o["operation"].bind(o["symbol_map_extra"]))),
         ("inverse", lambda o: o["circuit"].inverse()),
         ("controlled", lambda o: o["circuit"].controlled(3)),
